@@ -16,7 +16,7 @@ import time
 ROOT = os.path.dirname(os.path.dirname(os.path.abspath(__file__)))
 PY = os.path.join(ROOT, ".venv", "bin", "python")
 KNOWN_FILE = os.path.join(ROOT, "KNOWN_FINDINGS.txt")
-SEED_UNION_THOROUGH = {"C01", "C03", "C04", "C05", "C10", "C11"}
+SEED_UNION_THOROUGH = {"C01", "C03", "C04", "C05", "C08", "C10", "C11"}
 
 
 def log(*a):
